@@ -39,8 +39,10 @@ def programs(out, tier, prop, versions, per_version, rng, want_generated=True, l
                                                        sorted(inputs.LAYOUT_ALPHABET, key=len, reverse=True)))
             short = [t for t in lay if len(symlen.findall(t)) <= nl]
             longer_lay = [t for t in lay if len(symlen.findall(t)) > nl]
-            lay = short + rng.sample(longer_lay, min(len(longer_lay), 6000 if tier == 'quick' else 60000))
+            lay = short + rng.sample(longer_lay, min(len(longer_lay), 3000 if tier == 'quick' else 60000))
             out.cov(layout_strings=len(lay), layout_exhaustive_upto=nl)
+            if tier == 'quick' and len(shapes) > 30000:
+                shapes = rng.sample(shapes, 30000)
             lits = ['x = %s\n' % s for s in nums if s] + ['x = %s\n' % s for s in strs if s] + shapes
             lits += [t if t.endswith('\n') else t + '\n' for t in lay if t]
             for v in versions:
